@@ -114,6 +114,26 @@ Theorem c19_refines_spec : forall v : value, well_typed v = true -> script_error
 Proof. exact write_agrees_spec. Qed.
 Print Assumptions c19_refines_spec.
 
+(* THE PROPERTY'S MAIN CLAUSE, END TO END: a value that promised unit a and writes one finite number (magnitude in
+   [2^-900, 2^900]) in unit a, wrapped as unit b, emits one number in unit b with the same dimensions and flags, and
+   emitted x size(b) = original x size(a) up to two roundings *)
+Theorem c19_with_unit_preserves_quantity : forall (a b : tag) (x : f64) dims fl,
+  convertible a b = true -> unitless_source a = false ->
+  Binary.is_finite 53 1024 x = true -> (bpow radix2 (-900) <= Rabs (R64 x) <= bpow radix2 900)%R ->
+  exists y : f64,
+    write (WithUnit (Script a (VMetric [OFloat x] (tag_unit a) dims fl)) b) = VMetric [OFloat y] (tag_unit b) dims fl /\
+    (Rabs (R64 y * Q2R (phys (tag_unit b)) - R64 x * Q2R (phys (tag_unit a)))
+      <= (bpow radix2 (-52) + bpow radix2 (-106)) * Rabs (R64 x * Q2R (phys (tag_unit a))))%R.
+Proof. exact with_unit_preserves_quantity. Qed.
+Print Assumptions c19_with_unit_preserves_quantity.
+
+(* declaring a unit on a unitless value keeps every observation of every kind bit for bit *)
+Theorem c19_declare_unit_keeps_observations : forall (a b : tag) os dims fl,
+  convertible a b = true -> unitless_source a = true ->
+  write (WithUnit (Script a (VMetric os (tag_unit a) dims fl)) b) = VMetric os (tag_unit b) dims fl.
+Proof. exact declare_unit_keeps_observations. Qed.
+Print Assumptions c19_declare_unit_keeps_observations.
+
 Theorem c19_emitted_unit_is_declared : forall v to os u dims fl,
   write (WithUnit v to) = VMetric os u dims fl -> u = tag_unit to.
 Proof. exact with_unit_emits_declared_unit. Qed.
